@@ -34,6 +34,11 @@ def case(draw):
     if kind == "interval":
         n = draw(st.integers(1, 7))
         c["supports"] = draw(G.supports([f"c{i}" for i in range(n)]))
+        c["prenormalised"] = draw(st.booleans())
+        if draw(st.integers(0, 3)) == 0:
+            # dyadic supports without zeros: rescaled they add up to exactly 1.0 in floating point
+            parts = draw(st.lists(st.sampled_from([1, 1, 2, 4]), min_size=1, max_size=4))
+            c["supports"] = {f"c{i}": p for i, p in enumerate(parts + [8 - sum(parts) % 8 if sum(parts) % 8 else 8])}
     elif kind == "combine":
         k = draw(st.integers(1, 3))
         c["intervals"] = [draw(G.supports([f"s{j}c{i}" for i in range(draw(st.integers(1, 3)))])) for j in range(k)]
@@ -108,9 +113,18 @@ def check(case):
     out.label(f"kind={kind}")
     if kind == "interval":
         sup = case["supports"]
-        pi = PreferenceInterval({c: G.fl(v) for c, v in sup.items()})
         want, zero = norm(sup)
+        given = {c: G.fl(v) for c, v in sup.items()}
+        if case.get("prenormalised") and not zero:
+            given = {c: float(v) for c, v in want.items()}  # already sums to one (exactly, when dyadic)
+        pi = PreferenceInterval(given)
         cmp_interval(out, "interval", pi, want, zero, sup)
+        # the interval is a value: what the caller does with the dictionary afterwards is not its business
+        for c in list(given):
+            given[c] = given[c] * 3 + 1
+        given["Zz"] = 5.0
+        if not out.fails:
+            cmp_interval(out, "interval_after_caller_edits_dict", pi, want, zero, sup)
         out.nontrivial = len(set(want.values())) >= 3
         return out
     if kind == "combine":
